@@ -14,7 +14,9 @@ RULE = ("Files from independent per-format grammars (two-line and wrapped FASTA 
         "buffer types, SAM with optional tags, GTF, GFF3 with interior comments, GFA S-lines, pairs): 1..N records, field widths 1..W with "
         "single-character and very unequal widths, signed / zero-padded integers, decimal and scientific floats, '.' placeholders, header and "
         "comment lines, LF/CRLF, with and without final newline. Read eagerly and lazily through NumpyFileReader over BytesIO, and a seeded "
-        "sample through bnp.open on a real file. Oracle: number of entries == number of records and every column equals the value computed "
+        "sample through bnp.open on a real file. In a share of the cases another well-formed file is read first in the same process (the same bytes "
+        "through another VCF buffer type; another file of the same format; for typed VCF a file declaring the same INFO keys and types with a "
+        "different Number), and both reads are checked. Oracle: number of entries == number of records and every column equals the value computed "
         "from the text with plain Python (int, float within 8 ulp, verbatim strings, lists element by element, POS-1, typed INFO per header, "
         "genotypes at decoded level). Non-trivial: >= 2 records and some column with unequal field widths.")
 ASSUMPTIONS = [
@@ -23,7 +25,8 @@ ASSUMPTIONS = [
     "Phased genotype encodings are only given their documented domain (0|0,0|1,1|0,1|1; haplotype alleles 0-4 and '.').",
 ]
 REQUIRED_CLASSES = ["crlf", "single-char-field", "wide-vs-narrow", "signed-int", "dot-placeholder", "typed-info",
-                    "info-key-absent", "sam-tags", "trailing-comma-list", "interior-comments", "lazy", "eager"]
+                    "info-key-absent", "sam-tags", "trailing-comma-list", "interior-comments", "lazy", "eager",
+                    "other-buffer-type-read-first", "other-file-read-first", "same-info-keys-other-number-read-first"]
 BOUNDS = {"quick": "300 files per format variant (21 variants), up to 10 records, widths up to 14",
           "thorough": "3000 files per format variant, up to 40 records, widths up to 40"}
 BUDGET_S = {"quick": 200, "thorough": 1500}
@@ -100,6 +103,11 @@ def classify(case):
         cl.append("via-path")
     if case.get("prior_fmt"):
         cl.append("other-buffer-type-read-first")
+    if case.get("prior"):
+        cl.append("other-file-read-first")
+        if case.get("info_decl") and case["prior"].get("info_decl") and case["prior"]["info_decl"] != case["info_decl"] \
+                and [(d[0], d[2]) for d in case["prior"]["info_decl"]] == [(d[0], d[2]) for d in case["info_decl"]]:
+            cl.append("same-info-keys-other-number-read-first")
     return len(recs) >= 2 and uneven, cl
 
 
@@ -123,6 +131,13 @@ def check(case, stats=None):
     try:
         if case.get("prior_fmt"):
             read_rows(data, formats.FORMATS[case["prior_fmt"]], lazy)
+        if case.get("prior"):
+            # another well-formed file read first in the same process: what it leaves behind must not change this read
+            prior = case["prior"]
+            got = read_rows(formats.serialize(prior), formats.FORMATS[prior["fmt"]], lazy)
+            pdiff = formats.first_row_diff(formats.expected_rows(prior), got)
+            if pdiff is not None:
+                return [Failure(_bucket_for(prior, pdiff), dict(pdiff, in_prior_file=True))]
         rows = read_rows_path(data, fmt, lazy) if case.get("via_path") else read_rows(data, fmt, lazy)
     except Exception as e:
         import traceback
@@ -153,6 +168,8 @@ def plain_case(draw, fmt, max_records, W):
     case["lazy"] = draw(st.booleans()) if formats.FORMATS[fmt].lazy else False
     if draw(st.integers(0, 14)) == 0:
         case["via_path"] = True
+    if draw(st.integers(0, 7)) == 0:
+        case["prior"] = draw(S.file_case(fmt, 1, 3, W, canonical=False))
     return case
 
 
@@ -166,6 +183,12 @@ def vcf_family_case(draw, fmt, max_records):
         case["prior_fmt"] = draw(st.sampled_from([f for f in VCFS if f != fmt and f != "vcfs"]))
         if case["prior_fmt"] in ("vcfm", "vcfpm", "vcfph") and fmt in ("vcf", "vcfs"):
             case["prior_fmt"] = "vcf2" if fmt != "vcf2" else "vcf"
+    elif draw(st.integers(0, 3)) == 0:
+        if case.get("info_decl"):
+            # a file whose header declares the same INFO keys and types, some with another Number, read first
+            case["prior"] = draw(S.vcf_case(fmt, 3, decl=S.related_info_decl(draw, case["info_decl"])))
+        else:
+            case["prior"] = draw(S.vcf_case(fmt, 3, typed=None if fmt != "vcfs" else False))
     return case
 
 
